@@ -38,6 +38,9 @@ type Profile struct {
 	DurableIngest bool
 	// SyncPct is the percentage of commits issued with Sync (default 25).
 	SyncPct int
+	// BigValues shifts the value-length distribution upwards (more flushes,
+	// more files, deeper LSMs).
+	BigValues bool
 }
 
 type wchoice struct {
@@ -127,6 +130,9 @@ func (g *gen) value(label string) (string, int) {
 	g.nval++
 	tag := fmt.Sprintf("v%d", g.nval)
 	cls := rapid.IntRange(0, 19).Draw(g.t, label+"len")
+	if g.p.BigValues && cls < 8 {
+		cls += 10
+	}
 	vl := 0
 	switch {
 	case cls < 10:
